@@ -36,16 +36,23 @@ func (schemas Schemas) Locate(pkg string) (*Schema, bool) {
 }
 
 func (schemas Schemas) ResolveToType(def Type) Type {
-	if !def.IsRef() {
-		return def
+	seen := map[RefType]struct{}{}
+	for def.IsRef() {
+		ref := def.AsRef()
+		if _, cyclic := seen[ref]; cyclic {
+			return def
+		}
+		seen[ref] = struct{}{}
+
+		resolved, found := schemas.LocateObjectByRef(ref)
+		if !found {
+			return def
+		}
+
+		def = resolved.Type
 	}
 
-	resolved, found := schemas.LocateObjectByRef(def.AsRef())
-	if !found {
-		return def
-	}
-
-	return schemas.ResolveToType(resolved.Type)
+	return def
 }
 
 func (schemas Schemas) LocateObject(pkg string, name string) (Object, bool) {
